@@ -132,6 +132,11 @@ def _run_unit_once(unit_name, unit_path, workdir, repo, rlimit, extra_args, time
         if not prim:
             compile_errors.append(d)
             continue
+        if not any(msg.lower().startswith(m) for m in VERIFICATION_FAILURE_MSG):
+            # a code-less error that is not one of Verus' verification failures (the Verus syntax
+            # layer rejecting the generated text, an unsupported-feature report, ...): not a verdict
+            compile_errors.append(d)
+            continue
         ps = prim[0]
         gl = ps['line_start']
         origin = ex.out.origin[gl - 1] if 0 < gl <= len(ex.out.origin) else ('?', '?', 0)
@@ -204,6 +209,9 @@ def _run_unit_once(unit_name, unit_path, workdir, repo, rlimit, extra_args, time
         opaque = opaque_ops(gen_text, m.get('new_ops') or [])
         if m.get('new_closures'):
             opaque.append('%d new closure(s)' % m['new_closures'])
+        if m.get('new_arith'):
+            opaque.append('new bit-level / non-linear operator(s) %s (Verus needs an explicit by(bit_vector) / '
+                          'by(nonlinear_arith) hint for each; the contract file has none for these)' % ' '.join(m['new_arith']))
         if opaque:
             # the body now applies operations that were not in it when its contract and proof were
             # written and for which the contract set holds no meaning (a closure Verus cannot see
@@ -241,6 +249,18 @@ def _where(ex, d):
                 o = ex.out.origin[gl - 1]
                 return '%s:%d' % (o[1], o[2])
     return '?'
+
+
+# the messages with which Verus reports an obligation it could not discharge; every other error is
+# a tool/translation problem and makes the unit undecided
+VERIFICATION_FAILURE_MSG = (
+    'postcondition not satisfied', 'precondition not satisfied', 'assertion failed', 'assertion not satisfied',
+    'invariant not satisfied', 'loop invariant not', 'loop ensures not satisfied', 'ensures not satisfied',
+    'possible arithmetic underflow/overflow', 'possible division by zero', 'possible bit shift underflow/overflow',
+    'decreases not satisfied', 'could not prove termination', 'unreachable', 'cannot show invariant',
+    'rlimit', 'resource limit', 'while loop: not all errors may have been reported', 'function body check: not all errors',
+    'unable to prove assertion', 'requires not satisfied', 'index out of bounds', 'possible overflow', 'possible underflow',
+)
 
 
 def opaque_ops(gen_text, names):
